@@ -28,10 +28,8 @@ TRUSTED = ["CPython list slicing / slice assignment / defaultdict / issubclass (
            "of seq (the contracts the tape draws are checked against); the iteration order of a set of type objects is "
            "unspecified, so that draw is transported as the chosen type",
            "IEEE-754 double division and comparison (terminalRatio, termpb) are the same operation in Lean's Float"]
-ASSUMPTIONS = ["primitive sets: every primitive has arity >= 1, every terminal arity 0, every requestable type has at least one "
-               "terminal and one primitive (otherwise generate raises its documented IndexError)",
-               "a strongly typed set does not use `object` as the return type of tree roots (cxOnePoint switches to its "
-               "untyped shortcut when ind1.root.ret is object); see theorem hypothesis `hobj` of cx_closed",
+ASSUMPTIONS = ["primitive sets: every primitive has arity >= 1, every terminal arity 0; where a requested type has no "
+               "terminal / no primitive, generate raises its documented IndexError and produces no tree (model: none)",
                "ephemeral generators draw their value with random.randint (so the value is on the tape)"]
 EXPLANATION = ("Theorems C11.* are proved for every primitive set satisfying the pool invariant established by _add, all "
                "trees, all tapes (no size bounds); the correspondence ties Core/GpTree.lean to deap.gp by replaying the "
@@ -286,8 +284,7 @@ def build_typed3():
 
 
 def build_typedobj():
-    # strongly typed, but tree roots return `object` (ret_type object and a primitive returning object):
-    # cxOnePoint then takes its untyped shortcut.  Only generated when the finding is listed as known.
+    # strongly typed, but tree roots return `object` (ret_type object and a primitive returning object)
     ps = PS("typedobj", True, [int], object, [int, bool, float])
     p = ps.pset
     p.addPrimitive(f_add, [int, int], int, name="addI")
@@ -299,13 +296,48 @@ def build_typedobj():
     return ps
 
 
-OBJROOT_KEY = "cxOnePoint-object-root"
+def build_typedT():
+    # the type bool is provided by terminals only (constants feeding an if-then-else); float has both
+    ps = PS("typedT", True, [float], float, [float, bool])
+    p = ps.pset
+    p.addPrimitive(f_add, [float, float], float, name="addF")
+    p.addPrimitive(f_neg, [float], float, name="negF")
+    p.addPrimitive(f_ite, [bool, float, float], float, name="iteF")
+    p.addTerminal(True, bool, name="true")
+    p.addTerminal(False, bool, name="false")
+    p.addTerminal(0.5, float)
+    return ps
+
+
+class TN(object):
+    pass
+
+
+class TI(TN):
+    pass
+
+
+def build_typedS():
+    # subclass pair Int(Num) with a primitive returning a strict subclass of its argument type (floor: Num -> Int)
+    # and slots that accept only the subclass (inc, addi, first argument of pick)
+    ps = PS("typedS", True, [TN], TN, [TN, TI])
+    p = ps.pset
+    p.addPrimitive(f_add, [TN, TN], TN, name="addn")
+    p.addPrimitive(f_ite, [TI, TN, TN], TN, name="pick")
+    p.addPrimitive(f_id, [TN], TI, name="floor")
+    p.addPrimitive(f_id, [TI], TI, name="inc")
+    p.addPrimitive(f_add, [TI, TI], TI, name="addi")
+    p.addTerminal(0.5, TN, name="half")
+    p.addTerminal(2, TI, name="two")
+    p.addEphemeralConstant(uniq("EN"), _eph, TI)
+    return ps
+
 
 BUILDERS = {"loose1": build_loose1, "loose0": build_loose0, "loose2": build_loose2, "unary": build_loose_unary,
             "typed1": build_typed1, "typed1f": lambda: build_typed1(float), "typed1b": lambda: build_typed1(bool),
-            "typed2": build_typed2, "typed3": build_typed3}
+            "typed2": build_typed2, "typed3": build_typed3, "typedobj": build_typedobj, "typedT": build_typedT,
+            "typedS": build_typedS}
 PSNAMES = sorted(BUILDERS)
-BUILDERS["typedobj"] = build_typedobj
 _cache = {}
 
 
@@ -420,11 +452,28 @@ def well_formed(nodes, slot):
 GEN = {"full": gp.genFull, "grow": gp.genGrow, "half": gp.genHalfAndHalf}
 
 
-def make_tree(ps, g):
-    """g = {mode, mn, mx, ty, seed}; returns (PrimitiveTree, tape)"""
-    with MyTape(rng=random.Random(g["seed"])) as tp:
-        expr = GEN[g["mode"]](ps.pset, g["mn"], g["mx"], ps.types[g["ty"]])
-    return gp.PrimitiveTree(expr), tp
+def documented(e):
+    """generate's documented IndexError: the requested type has no primitive / terminal"""
+    return isinstance(e, IndexError) and "The gp.generate function tried to add" in str(e)
+
+
+def make_tree(ps, g, retry=0):
+    """g = {mode, mn, mx, ty, seed}; returns (PrimitiveTree, tape); the tree is None when generate raised its
+    documented IndexError (retry > 0: try the following seeds instead)"""
+    for j in range(retry + 1):
+        with MyTape(rng=random.Random(g["seed"] + j)) as tp:
+            try:
+                expr = GEN[g["mode"]](ps.pset, g["mn"], g["mx"], ps.types[g["ty"]])
+            except IndexError as e:
+                if not documented(e):
+                    raise
+                expr = None
+        if expr is not None:
+            return gp.PrimitiveTree(expr), tp
+    if retry and (g["mode"], g["mn"]) != ("grow", 0):
+        # a set where some type has terminals only cannot produce every shape: fall back to a small grown tree
+        return make_tree(ps, dict(g, mode="grow", mn=0, mx=min(g["mx"], 2)), retry)
+    return None, tp
 
 
 def gen_line(ps, g, tp):
@@ -495,6 +544,10 @@ def evaluate(d):
     ps = get_ps(d["ps"])
     if k == "gen":
         tree, tp = make_tree(ps, d)
+        if tree is None:
+            # documented IndexError: no tree is produced; the model stops at the same draw
+            return Case(d, [gen_line(ps, d, tp)], ["none"], None, tag="gen/%s/%s/raises" % (d["ps"], d["mode"]),
+                        nontrivial=False)
         lines = [gen_line(ps, d, tp)]
         expect = ["%s 0" % ps.nodes_tok(tree)]
         orc = gen_oracle(ps, d, tree, tp)
@@ -529,7 +582,7 @@ def evaluate(d):
         return Case(d, [line], [exp], orc, tag="add/" + d["ps"])
 
     if k == "guard":
-        tree, _ = make_tree(ps, d["t"])
+        tree, _ = make_tree(ps, d["t"], retry=200)
         r = random.Random(d["seed"])
         nodes = ps.nodes_tok(tree)
         lines, expect = [], []
@@ -587,7 +640,7 @@ def evaluate(d):
     # ---- operators ---------------------------------------------------------------------------
     trees, lines, expect = [], [], []
     for g in d["t"]:
-        tree, tpg = make_tree(ps, g)
+        tree, tpg = make_tree(ps, g, retry=200)
         trees.append(tree)
     slots = [ps.types[g["ty"]] for g in d["t"]]
     for tree, s in zip(trees, slots):
@@ -631,7 +684,16 @@ def evaluate(d):
         fn = gp.staticLimit(key=key, max_value=maxv)(fn)
         optoks = "slim %s %d %s" % (lim["key"], maxv, optoks)
     with MyTape(rng=random.Random(d["seed"])) as tp:
-        out = list(call(fn))
+        try:
+            out = list(call(fn))
+        except IndexError as e:
+            if not (k == "mutu" and documented(e)):
+                raise
+            out = None
+    if out is None:
+        # the replacement generator raised its documented IndexError inside mutUniform: no offspring
+        return Case(d, ["C11 %s %s" % (optoks, tape_tok(ps, tp))], ["none"], None, tag="mutu/%s/raises" % d["ps"],
+                    nontrivial=False)
     lines.append("C11 %s %s" % (optoks, tape_tok(ps, tp)))
     expect.append("%s 0" % " ".join(ps.nodes_tok(o) for o in out))
     # ---- oracle: the statement ----
@@ -736,13 +798,16 @@ def generate(tier, rng, mult):
                             if mode != "grow" and mx >= 5:
                                 d["observe"] = False
                             yield d
-    if objroot_known():
-        ps = get_ps("typedobj")
-        for _ in range(60):
-            d = op_desc(rng, ps, "cx")
-            for g in d["t"]:
-                g["mode"], g["mn"], g["mx"], g["ty"] = "full", 1, 3, 0
-            yield d
+    # staticLimit on the height with a tight limit: both parents exactly at the limit
+    for _ in range((20000 if thorough else 2000) * mult):
+        ps = get_ps(rng.choice(PSNAMES))
+        k = rng.choice(["cx", "cxlb", "cxlb", "mutu", "muti"])
+        d = op_desc(rng, ps, k)
+        h = rng.choice([2, 3, 3, 4])
+        for g in d["t"]:
+            g["mode"], g["mn"], g["mx"], g["ty"] = rng.choice(["full", "grow"]), h if rng.random() < 0.7 else 1, h, d["t"][0]["ty"]
+        d["lim"] = {"key": "height", "delta": 0}
+        yield d
     nrand = (250000 if thorough else 8000) * mult
     for i in range(nrand):
         ps = get_ps(rng.choice(PSNAMES))
@@ -801,19 +866,5 @@ def shrink(d):
             yield e
 
 
-def objroot_known(known=None):
-    """id of the known finding 'cxOnePoint ignores types when ind1.root.ret is object', if it is listed"""
-    if known is None:
-        import lib
-        known = lib.load_known("C11")
-    for k in known:
-        if OBJROOT_KEY in (k.get("key", "") + " " + k.get("what", "")):
-            return k.get("id")
-    return None
-
-
 def classify(desc, msg, known):
-    if isinstance(desc, dict) and desc.get("ps") == "typedobj" and desc.get("k") == "cx" \
-            and "not accepted by slot" in msg:
-        return objroot_known(known)
     return None
